@@ -237,7 +237,7 @@ GPublish ==
   \E kind \in (IF Mode \in {"disc", "stall"} THEN R({7, 8}) ELSE R(1..8)), xl \in R(SidLists), el \in R(SidLists), xa \in R(XaSet), ea \in R(EaSet),
      ack \in (IF Mode = "stall" THEN {TRUE} ELSE R(BOOLEAN)), xme \in W(<<"", "", "t", "f", "f">>),
      dme \in (IF Mode = "disc" THEN W(<<TRUE, TRUE, TRUE, FALSE>>) ELSE W(<<FALSE, FALSE, TRUE>>)),
-     ppt \in PptPick(N) :
+     ppt \in PptPick(N), un \in R(1..3) :
     LET o == [O0 EXCEPT !.ack = ack, !.xme = xme, !.dme = dme, !.ppt = ppt,
                         !.xl = IF kind \in {1, 2} THEN xl ELSE <<>>,
                         !.hx = kind \in {1, 2},
@@ -245,8 +245,10 @@ GPublish ==
                         !.he = kind \in {2, 3} /\ el # <<>>,
                         !.xa = IF kind \in {4, 6} THEN xa ELSE <<>>,
                         !.ea = IF kind \in {5, 6} THEN ea ELSE <<>>]
-        i == [In0 EXCEPT !.op = "publish", !.s = s, !.req = N, !.uri = u, !.tag = Tag, !.o = o]
-    IN Step(i, PublishReqFx(Cur, s, N, u, o, NextId(used.pub), Tag))
+        \* (Mode "unser": an in-process publisher hands over a payload that cannot be serialised)
+        tag == IF Mode = "unser" /\ sess[s].local /\ un = 1 THEN "u" \o ToString(N) ELSE Tag
+        i == [In0 EXCEPT !.op = "publish", !.s = s, !.req = N, !.uri = u, !.tag = tag, !.o = o]
+    IN Step(i, PublishReqFx(Cur, s, N, u, o, NextId(used.pub), tag))
 
 GRegister ==
   \E s \in J : \E bad \in (IF Scripted THEN {2} ELSE R(1..6)) : \E k \in R(IF bad = 1 THEN BadKeys \cup {<<U_wampx, "">>} ELSE Keys) :
